@@ -79,6 +79,9 @@ class C03(Prop):
                           policies=["natural@reserved2", "1@reserved2"]),
                     Layer("boolean P2xP1", lambda: self.bin_cases("bool", "P2", "P1")),
                     Layer("boolean P1xP2{b,c}", lambda: self.bin_cases("bool", "P1", "P2", ("b", "c"))),
+                    Layer("boolean P2xP2 (every 5th pair)",
+                          lambda: (c for k, c in enumerate(self.bin_cases("bool", "P2", "P2")) if k % 5 == 0),
+                          policies=["natural@int", "1@str", "2@int"]),
                     Layer("rational P1xP1", lambda: self.bin_cases("rat", "P1", "P1"), policies=two),
                     Layer("rational P1xP1{b,c}", lambda: self.bin_cases("rat", "P1", "P1", ("b", "c")), policies=two)]
         few = ["natural@int", "natural@str", "1@int", "2@str", "s%d@int" % seed]
